@@ -43,7 +43,7 @@ def _record(self, kind, **extra):
         return
     rec = dict(kind=kind, label=self.label, type=type(self).__name__, pid=os.getpid(), ppid=os.getppid(),
                thread=threading.get_ident(), main_thread=threading.main_thread().ident,
-               t=time.monotonic(), **extra)
+               t=time.monotonic(), wall=time.time(), **extra)
     with open(os.path.join(recdir, f'{os.getpid()}_{time.monotonic_ns()}_{self.label}_{kind}.json'), 'w') as f:
         json.dump(rec, f)
 
@@ -100,6 +100,22 @@ def _gate(self, name):
         time.sleep(0.002)
 
 
+def _lazy_lookup(ctx):
+    if not isinstance(ctx, dict) or not os.environ.get('LV_LAZY_CONTEXT'):
+        return None
+    try:
+        return ctx['__not_held_yet__']
+    except BaseException as e:   # noqa
+        return f'raised {type(e).__name__}'
+
+
+class LazyContext(dict):
+    """A context that computes what it is asked for and does not hold yet."""
+
+    def __missing__(self, key):
+        return f'lazy:{key}'
+
+
 def _run(self):
     ctx = self.context
     if ctx is None:
@@ -109,7 +125,7 @@ def _run(self):
             start_method=__import__('multiprocessing').get_start_method(allow_none=True),
             main_file=getattr(sys.modules.get('__main__'), '__file__', None),
             marker=getattr(sys.modules.get('lv_universe'), 'PARENT_MARKER', None),
-            derived=getattr(self, 'derived', None))
+            derived=getattr(self, 'derived', None), lazy=_lazy_lookup(ctx))
     _gate(self, 'started')
     _talk(self)
     if self.beh == 'raise':
@@ -335,6 +351,16 @@ VPost = make_vtype('VPost', ['x'], post_init=True)
 VRewrite = make_rewrite_type()
 
 
+class _PostInitMixin:
+    def post_init(self):
+        object.__setattr__(self, 'derived', ('derived', repr(getattr(self, 'x', None))))
+
+
+# post_init inherited from a mixin / from a parent task type, not defined in the class body itself
+VPostMix = labtech.task(type('VPostMix', (_PostInitMixin,), {'__annotations__': {'x': Any}, 'run': _vrun, '__module__': __name__, '__qualname__': 'VPostMix'}))
+VPostSub = labtech.task(type('VPostSub', (VPost,), {'__annotations__': {'y': Any}, 'y': 0, 'run': _vrun, '__module__': __name__, '__qualname__': 'VPostSub'}))
+
+
 def _vrun_none(self) -> None:
     VRUN_COUNT[0] += 1
 
@@ -389,6 +415,8 @@ def _vdep_run(self):
 
 VDep = labtech.task(type('VDep', (), {'__annotations__': {'x': Any}, 'run': _vdep_run, '__module__': __name__, '__qualname__': 'VDep'}))
 NestA_V2 = _nested_type('NestA')
+# a task type defined inside a class, with a plain name no other type has (the diagram shows plain names)
+VInner = labtech.task(type('VInner', (), {'__annotations__': {'x': Any}, 'run': _vrun, '__module__': __name__, '__qualname__': 'NestD.VInner'}))
 NestB_V2 = _nested_type('NestB')
 V0 = make_vtype('V0', [])                        # no parameters at all
 VUnder = make_vtype('VUnder', ['_hidden', 'x_'])   # parameter names with underscores
